@@ -29,7 +29,7 @@ import Autog.Lemmas.DfsBreakerTotal
 namespace Autog
 
 /-- the full claim, kept visible: for every well-formed input and every configuration with exact models the composed model returns -/
-def C01_full : Prop := ∀ (ord : G → M G) (cfg : Cfg) (es : InEdges), es ≠ [] → cfg.p4 ≤ 3 → cfg.p5 ≠ 3 →
+def C01_full : Prop := ∀ (ord : G → M G) (cfg : Cfg) (es : InEdges), es ≠ [] → cfg.p4 ≤ 4 → cfg.p5 ≠ 3 →
   (∀ g, ∃ g', ord g = .ok g') → ∃ out, layoutModel ord cfg es = .ok out
 
 theorem C01_valign_packright_total (alg : Nat) (ha : alg = 1 ∨ alg = 2) (ns ls : Rat) (g : G) :
